@@ -30,7 +30,7 @@ from sims import s3_sticky as S
 
 PROPERTY = "C25"
 LEVEL = "fault_enumeration"
-QUICK_RUNS = 200
+QUICK_RUNS = 128
 THOROUGH_RUNS = 14_000
 QUICK_BUDGET_S = 100
 THOROUGH_BUDGET_S = 1500
